@@ -21,16 +21,16 @@ CASES = {"quick": 500, "thorough": 15000}
 BUDGET = {"quick": 60, "thorough": 1200}
 GRAPHS_PER_CASE = 3
 N_VARIANTS = 3
-FLOORS = {"quick": {"nontrivial": 350,
-                    "tags": {"respect_switches": 300, "ignore_switches": 300, "multi=False": 250, "include_out_of_service": 250,
-                             "nogobuses": 250, "notravbuses": 250, "index_subset": 300, "open_line_switch": 200,
-                             "open_trafo_switch": 90, "open_t3_switch": 60, "open_bb_switch": 180, "oos_bus": 170, "oos_branch": 250,
-                             "dcline": 120, "impedance": 150, "trafo3w": 220, "parallel_edges": 250, "reindexed": 100},
-                    "extras": {"graphs": 1500, "cc_checked": 1000, "cc_notrav_checked": 1000, "dist_checked": 700,
-                               "edges_expected": 12000, "dist_notrav": 200, "dist_hops": 180},
+FLOORS = {"quick": {"nontrivial": 250,
+                    "tags": {"respect_switches": 250, "ignore_switches": 250, "multi=False": 240, "include_out_of_service": 240,
+                             "nogobuses": 240, "notravbuses": 240, "index_subset": 250, "open_line_switch": 200,
+                             "open_trafo_switch": 110, "open_t3_switch": 75, "open_bb_switch": 180, "oos_bus": 240, "oos_branch": 250,
+                             "dcline": 100, "impedance": 110, "trafo3w": 160, "parallel_edges": 190, "reindexed": 80},
+                    "extras": {"graphs": 2100, "cc_checked": 1450, "cc_notrav_checked": 1450, "dist_checked": 1300,
+                               "edges_expected": 16000, "dist_notrav": 400, "dist_hops": 400},
                     "max_skip_frac": 0.05},
-          "thorough": {"nontrivial": 10000, "tags": {"open_t3_switch": 2000, "notravbuses": 8000, "dcline": 4000, "reindexed": 3000},
-                       "extras": {"graphs": 50000, "cc_checked": 30000, "dist_checked": 20000}, "max_skip_frac": 0.05}}
+          "thorough": {"nontrivial": 7000, "tags": {"open_t3_switch": 2000, "notravbuses": 7000, "dcline": 3000, "reindexed": 2400},
+                       "extras": {"graphs": 60000, "cc_checked": 40000, "dist_checked": 40000}, "max_skip_frac": 0.05}}
 RULE = ("one case = one netgen network (profiles multi_island / full_mix with random switching and in_service states, sometimes "
         "re-indexed) x 3 switching / in_service variants x %d random option vectors of create_nxgraph (respect_switches, include_* as bool or index subset, "
         "include_out_of_service, nogobuses, notravbuses, multi, trafo/switch lengths) + connected_components (with and without "
@@ -323,7 +323,7 @@ def perturb(net, g):
 def run_case(seed, tier, case_no):
     g = netgen.G(seed)
     profile = g.C(PROFILES)
-    net = netgen.rnd_net(seed, profile, dict(dcline=0.3))
+    net = netgen.rnd_net(seed, profile, dict(dcline=0.3, sw_at_oos_bus=True))
     if g.B(0.3) and len(net.dcline) == 0 and (net.bus.vn_kv == 20.).sum() >= 2:
         # dclines are rare in the profile: add one between two MV buses (topology only, no power flow is run here)
         import pandapower as pp
